@@ -175,6 +175,9 @@ func execOp(line string) {
 	case "srcheck":
 		emit(line, safely(func() string { return implSrcheck(t) }))
 
+	case "gencheck":
+		emit(line, safely(func() string { return implGencheck(t) }))
+
 	case "tnc":
 		emit(line, safely(func() string { return implTnc(t) }))
 
